@@ -74,7 +74,15 @@ claimed["C14"]=dict(
    text="post table glyph names: isMacRoman is true exactly for the standard 258-name Macintosh order (so format 1 is chosen only then); post.Encode is checked as an encoder: every narrowing conversion is a lossless obligation - the 16-bit glyph count and standard indices are proved, the Pascal string length and the custom name index are NOT lossless in general and are recorded as open known findings with witnesses.",
    note="mac/UTF-16 codecs, name table storage and language tags are not under contract (string contents are uninterpreted in this engine).",
    ref="DESIGN.md section 5 (C14)")
-na_reasons = {}
+claimed["C04"]=dict(
+   text="Two charstring-compiler kernels: encodeInt emits the Type 2 integer encoding of TN 5177 (1 byte for -107..107, 2 bytes for +-108..+-1131, else 28 + 16-bit two's complement) and the emitted bytes decode to the same value for every 16-bit input (spec function of the decoder side written from the specification); in encodeCharString every hstem/vstem(hm) operator is emitted with at most 48 operands on the stack including the optional width operand, and the stem chunking loop terminates. The float side (encodeNumber rounding, non-accumulation in encodeArgs), operator selection in encodePaths/AppendEdges and the equivalence of the chosen operators with the path are NOT decided.",
+   note="encodeNumber, encodePaths, t2op.Bytes have assumed frames only; allocation sizes assumed within limits (A-MEM). Floats are uninterpreted.",
+   ref="DESIGN.md section 5 (C04)")
+claimed["C01"]=dict(
+   text="Constituents only: the check is the union of the table-level codec obligations that a whole-font round trip is made of - container directory/count/byte accounting (header.Write/Read), loca and glyf framing with declared size == emitted size (encodeLoca/decodeLoca, encodeLen/append, Glyphs.Encode, glyf.Decode), head, maxp, hmtx codecs field by field over byte offsets, coverage tables, CFF INDEX, cmap format 12 and table framing, post name encoding. A change that breaks the round trip by breaking one of these codecs fails that codec's obligation under C01 as well. The whole-font statement Read(Write(F)) == F, the merge precedence in sfnt.Read, makeName, the byte-level fixed point and write-twice determinism of Font.Write are NOT decided by any contract.",
+   note="Same assumptions as the constituent properties (C03, C08, C09, C11, C12, C13, C14).",
+   ref="DESIGN.md section 5 (C01)")
+na_reasons = {"C19": "the lookup description language is parsed by goroutines connected through channels with panic/recover error reporting (D-CONC) and is a string grammar whose inverse has no contract short of a second parser (D-STR): outside what a sequential contract verifier over integers, arrays and abstract strings can express"}
 m={"version":1,
  "setup_cmd":"cd /verif/engine && GOFLAGS=-mod=vendor GOPROXY=off GOSUMDB=off GOTOOLCHAIN=local go build -o ../bin/gvc ./cmd/gvc",
  "hooks":{"guard":"verif","enable":"contract files /repo/<pkg>/zz_verif_contracts.go carry //go:build verif and contain comments only; gvc loads /repo with -tags verif","baseline_off_cmd":"cd /repo && GOFLAGS=-mod=mod GOPROXY=off GOSUMDB=off GOTOOLCHAIN=local go test -vet=off -count=1 ./...","source_commits":hook_commits,"add_only":True},
